@@ -44,6 +44,21 @@ theorem setup_plain {c : Cfg} {st : St} {cmd : Cmd} {ts : List Nat} (h : phasedT
     obtain ⟨qs, e, h1, _⟩ := root_fold c (enq c st cmd ts).waiting (enq c st cmd ts)
     exact ⟨qs, e, h1⟩
 
+
+/-- as `setup_plain`, recording that a root is only queried when it was not "active" -/
+theorem setup_plain' {c : Cfg} {st : St} {cmd : Cmd} {ts : List Nat} (h : phasedT c st cmd ts = false) :
+    ∃ qs, setup c cmd (enq c st cmd ts) = { enq c st cmd ts with active := (enq c st cmd ts).active ++ qs } ∧
+      ∀ q ∈ qs, ∃ w ∈ (enq c st cmd ts).waiting, q = query (rootOf c w.plug) ∧
+        plugActive (enq c st cmd ts) (rootOf c w.plug) w.cmd = false := by
+  unfold phasedT at h
+  unfold setup afterPhased
+  by_cases he : (enq c st cmd ts).waiting.isEmpty = true
+  · exact ⟨[], by simp [he], by simp⟩
+  · simp only [he, Bool.not_true, Bool.not_false, Bool.true_and] at h
+    simp only [he, h, Bool.false_eq_true, if_false]
+    obtain ⟨qs, e, h1⟩ := root_fold' c (enq c st cmd ts).waiting (enq c st cmd ts)
+    exact ⟨qs, e, h1⟩
+
 /-- every target is exactly one of: unknown, root, child -/
 theorem classes (c : Cfg) (t : Nat) :
     (known c t = false ∧ isRootT c t = false ∧ isChildT c t = false) ∨
